@@ -31,6 +31,10 @@ CLAIMS = {
   "text": "The control metadata each packager renders is modelled as Gallina functions from the document's values (WithDefaults' semver split, per-packager defaults, architecture translation, deb/ipk control templates with join / nonEmpty / multiline incl. bufio.Scanner's 64 KiB limit, apk and archlinux .PKGINFO, rpm tags with rpmpack's relation parser, addIfMissing and self-provide) and compared on every run BYTE FOR BYTE with the control / .PKGINFO member of packages built through the real pipeline (rpm: tag by tag). The extracted checker check_C02 judges the independently parsed fields (name, composed version, documented architecture translation or override, maintainer/vendor/homepage/license/section/priority, synopsis, recovered description lines, every relation list complete and in order under its own tag, extras iff configured, no duplicate keys). Theorems (closed): Debian unfolding inverts the multiline printer for all descriptions without a '.' line (C02_description_recovered; refuted otherwise), overrides verbatim; instance obligations re-proved on every run over the regenerated tables: every documented GOARCH x format row equals the code's translation, all five formats documented, translation idempotent.",
   "note": "Known findings C02-K1 (archlinux pkgver drops the prerelease), K2 ('.' line), K3 (64 KiB line). Trusted: Coq kernel, extraction, OCaml driver, Go harness/decoders, translators/arch.go (go/ast + markdown rows). text/template, rpmpack's header encoding and chglog are modelled by their output. ASCII white space only.",
  },
+ "C14": {
+  "text": "Theorems (closed): the semver parser is lossless - every accepted string decomposes byte for byte into [v] major[.minor][.patch][-prerelease][+metadata] with the reported prerelease and metadata (C14_semver_split_lossless); under the Gallina port of dpkg's verrevcmp, for EVERY common prefix U, U~R sorts strictly before U and before U+..., lifted to whole version strings with equal epochs (C14_dpkg_prerelease_sorts_first, by induction over the digit/non-digit segments of U, no bound); any higher epoch sorts after any lower one for dpkg and rpm. Tie: 4 000 (thorough 60 000) grammar-generated versions and near misses through the real nfpm.WithDefaults against the model of Masterminds/semver + parseSemver; version fields decoded from real deb/ipk/rpm packages for a prerelease build, its release, a higher epoch and a higher patch level judged by the ports of dpkg's and rpm's comparison; the dpkg port validated against `dpkg --compare-versions` on random pairs.",
+  "note": "The rpm prerelease ordering and numeric ordering are decided by the checker on real package fields, not by theorem; the rpmvercmp port has no external judge on this image. Trusted: Coq kernel, extraction, OCaml driver, Go harness and decoders, dpkg.",
+ },
 }
 TECH = "Rocq proof over hand-written Gallina model + extraction-based correspondence check against the Go implementation"
 props = [json.loads(l) for l in open(V + "/properties.jsonl")]
